@@ -176,7 +176,7 @@ def dur(e, mainnet):
 
 def mk_event(i, blk, tx=None, **kw):
     e = dict(id=i, blk=blk, tx=tx if tx is not None else i, gov=True, ei=0, ok=True, tb=True, cl=0, kind="transfer", tok="none",
-             claim="none", bad="")
+             claim="none", bad="", tgt=0)
     e.update(kw)
     return e
 
@@ -207,6 +207,8 @@ class World:
             self.blocks[op["b"]]["main"] = False
         elif o == "height":
             self.height = max(self.height, op["h"])
+        elif o == "lagheight":
+            self.height = op["h"]
         elif o == "tok":
             self.tok[op["id"]] = op["shape"]
 
@@ -497,6 +499,104 @@ class WGen:
             self.step(None)
             self.op(op="req", tx=first["tx"])
         return finish_scenario(self.sc, "gen", "reobs:multi")
+
+    def lag(self):
+        """C08 height rule under a stale / lagging height: the node serves the events of a new block while the height it
+        reports is still BELOW that block (the two come from independent requests), or falls back after it had been higher;
+        on the polling path and on the re-observation path.  Nothing may come out before height >= block height + cl."""
+        r = self.r
+        if r.random() < 0.3:
+            return self.lag_reobs()
+        self.new(page=r.choice([1, 2, 3]))
+        self.toks()
+        self.old_events()
+        self.step("count", 1)
+        back = r.choice([1, 1, 2, 5])
+        b = self.block(ts=-5000)
+        bh = self.w.blocks[b]["h"]
+        evs = [self.good(b, cl=r.choice([1, 2, 10, 100, 254]), tx=None) for _ in range(r.choice([1, 2]))]
+        if r.random() < 0.4:
+            evs.append(self.good(b, cl=0))
+        self.op(op="lagheight", h=max(0, bh - back))
+        mode = r.choice(["poll", "poll", "reobs", "both"])
+        if mode in ("reobs", "both"):
+            self.step(None)
+            self.op(op="req", tx=evs[0]["tx"])
+        self.step(None)
+        self.op(op="lagheight", h=bh)             # the node catches up: exactly the block's height (cl 0 only)
+        if r.random() < 0.5:
+            self.step(None)
+            self.raise_height(r.choice([1, 2, 10]))
+            self.step(r.choice([None, "chain-info", "is-main"]), r.randrange(2, 9))
+            self.op(op="lagheight", h=max(0, bh - back))    # ... and falls back again while events are pending
+            if mode in ("reobs", "both"):
+                self.op(op="req", tx=evs[0]["tx"])
+        self.step(None)
+        self.op(op="height", h=bh + r.choice([1, 2, 10, 120]))
+        if mode == "both":
+            self.step(None)
+            self.op(op="req", tx=evs[-1]["tx"])
+        return finish_scenario(self.sc, "gen", "lag")
+
+    def lag_reobs(self, back=None, cl=None):
+        """The same on the re-observation path ALONE: the message was emitted before the watcher started (the polling path
+        never sees it), the node reports a height below its block when the request is served."""
+        r = self.r
+        self.new(page=2)
+        self.toks()
+        back = back or r.choice([1, 1, 2, 5])
+        b = self.block(ts=-5000)
+        bh = self.w.blocks[b]["h"]
+        e = self.good(b, cl=cl if cl is not None else r.choice([1, 2, 10, 100, 254]))
+        if r.random() < 0.5:
+            self.good(b, cl=0, tx=e["tx"])
+        self.op(op="lagheight", h=max(0, bh - back))
+        self.step("count", 1)
+        self.op(op="req", tx=e["tx"])
+        self.step(None)
+        self.op(op="lagheight", h=bh)
+        self.op(op="req", tx=e["tx"])
+        self.step(None)
+        self.op(op="lagheight", h=max(0, bh - back))
+        self.op(op="req", tx=e["tx"])
+        self.step(None)
+        self.op(op="height", h=bh + r.choice([1, 10, 300]))
+        self.op(op="req", tx=e["tx"])
+        return finish_scenario(self.sc, "gen", "lag:reobs-only")
+
+    def order(self):
+        """C09 exactly-once under out-of-order finality: several token-bridge messages to the SAME target chain with increasing
+        sequences and DEcreasing confirmation delays (later sequences become final first), also two blocks becoming final in
+        the same round; every one of them must still come out exactly once."""
+        r = self.r
+        self.new(page=r.choice([1, 2, 3, 5]))
+        self.toks()
+        self.old_events()
+        self.step("count", 1)
+        tgt = r.choice([2, 4, 65535])
+        n = r.choice([2, 3, 3, 4])
+        cls = sorted(r.sample([0, 1, 2, 3, 5, 8], n), reverse=True)
+        shape = r.choice(["one-block", "block-each", "block-each", "two-blocks"])
+        b = self.block(ts=-5000)
+        for i, cl in enumerate(cls):
+            if i and (shape == "block-each" or (shape == "two-blocks" and i == n // 2)):
+                if r.random() < 0.5:
+                    self.step(None)
+                b = self.block(ts=-5000)
+            self.good(b, cl=cl, tgt=tgt)
+            if r.random() < 0.25:
+                self.good(b, cl=r.choice([0, 4]), tgt=(tgt + 1 if tgt < 65535 else 1))       # traffic to another target chain in between
+        top = self.w.height
+        if r.random() < 0.5:
+            for _ in range(max(cls) + 1):             # one block at a time: the lowest cl (highest sequence) is final first
+                self.step(None)
+                self.raise_height(1)
+        else:
+            self.step(None)
+            self.raise_height(1)
+            self.step(None)
+            self.op(op="height", h=top + max(cls) + 1)    # several blocks become final in the same round
+        return finish_scenario(self.sc, "gen", "order")
 
     def hold(self):
         """C09 schedule control: new events arrive while NOTHING is pending (height poller idle); the answer to the page
@@ -1021,6 +1121,28 @@ def pinned(prop):
             g.step(None); g.raise_height(2)
             g.step(None); g.raise_height(1)
             done(g, "append-after-count-p%d" % page)
+        # stale / lagging height: the events of block h are served while the node still reports h-1 (and later falls back to it)
+        for mode in ("poll", "reobs"):
+            g = start()
+            b = g.block(ts=-5000)
+            bh = g.w.blocks[b]["h"]
+            e = g.good(b, cl=10)
+            g.good(b, cl=0)
+            g.op(op="lagheight", h=bh - 1)
+            if mode == "reobs":
+                g.step(None); g.op(op="req", tx=e["tx"])
+            g.step(None); g.op(op="lagheight", h=bh)
+            g.step(None); g.op(op="lagheight", h=bh - 1)
+            if mode == "reobs":
+                g.op(op="req", tx=e["tx"])
+            g.step(None); g.op(op="height", h=bh + 10)
+            done(g, "stale-height-" + mode)
+        g = WGen(random.Random("lag-reobs-only"))
+        sc = g.lag_reobs(back=1, cl=10)
+        if sc is None:
+            raise vlib.Broken("pinned scenario stale-height-reobs-only violates the time margins")
+        sc["src"], sc["family"] = "pinned", "pinned:stale-height-reobs-only"
+        res.append(sc)
         # attestations that differ from what the token contract reports in exactly one field (each alone), on both paths
         for tok, claim in ATTEST_PAIRS + [("alph", "malphd"), ("alph", "malphn")]:
             g = start()
@@ -1052,6 +1174,21 @@ def pinned(prop):
         g.good(b, cl=0)
         g.step(None); g.raise_height(2)
         done(g, "append-after-count")
+        # same target chain, increasing sequences, decreasing confirmation delays: the later sequences are final first
+        for name, step_by_one in (("stepwise", True), ("same-round", False)):
+            g = start(page=3)
+            b = g.block(ts=-5000)
+            g.good(b, cl=3, tgt=2)
+            b2 = g.block(ts=-5000)
+            g.good(b2, cl=1, tgt=2); g.good(b2, cl=0, tgt=2)
+            top = g.w.height
+            if step_by_one:
+                for _ in range(4):
+                    g.step(None); g.raise_height(1)
+            else:
+                g.step(None); g.op(op="height", h=top + 1)
+                g.step(None); g.op(op="height", h=top + 5)
+            done(g, "out-of-order-finality-" + name)
         # schedule control: the page answer of the poll that finds the first new event is held for 60 ms while nothing is pending
         for route in ("page", "multicall"):
             g = start(page=2)
